@@ -6,6 +6,7 @@ C15 driver ops: the verdict of `Model.Handshake` on the operation lines of harne
   hsflight <role> <flags>         the honest stream towards E
   hsout <role> <flags> <k>        the stream from E to its peer ends after k records of E
   chmod <mode> <kind> <field>     one field of the genuine ClientHello rewritten: verdict and the server's answer
+  shmod <kind> <offer> <field>    one field of the genuine ServerHello rewritten: does the client go on, which alert
 
 The translation script -> event sequence is the only glue: an honest stream is a list of flights (the peer
 sends a flight once E has answered the previous one), items are numbered across flights, and each edit maps to
@@ -331,6 +332,36 @@ def chmodOp (args : List String) : String :=
     | _, _ => "bad-op"
   | _ => "bad-op"
 
+/-- `shmod <gm|tls> <offer|-> <vers:hhhh | suite:hhhh | comp:hh>`: the client is configured with the offered
+    suites (`-`: the defaults); the genuine ServerHello is what a gmtls server of the same kind answers to its
+    hello (`helloAnswer`); one field of it is rewritten.  rejected:<alert> = the client aborts on the hello
+    (`clientHelloCheck`); otherwise it goes on, and completes only if nothing was changed. -/
+def shmodOp (args : List String) : String :=
+  match args with
+  | [kind, offer, field] =>
+    match hexList? offer 4, field.splitOn ":" with
+    | some cfg, [what, val] =>
+      if ¬ (kind = "gm" ∨ kind = "tls") then "bad-op" else
+      let gm := kind = "gm"
+      let (v0, dflt, _) := genuineHello kind
+      let hello := helloSuites gm (if offer = "-" then dflt else cfg)
+      match helloAnswer (if gm then .gmOnly else .tlsOnly) (!gm) v0 hello [0] with
+      | .serverHello w0 s0 =>
+        let new : Option (Nat × Nat × Nat) :=
+          if what = "vers" then (match hexList? val 4 with | some [v] => some (v, s0, 0) | _ => none)
+          else if what = "suite" then (match hexList? val 4 with | some [s] => some (w0, s, 0) | _ => none)
+          else if what = "comp" then (match hexList? val 2 with | some [c] => some (w0, s0, c) | _ => none)
+          else none
+        match new with
+        | none => "bad-op"
+        | some (v, su, cm) =>
+          match clientHelloCheck gm hello v su cm with
+          | .reject a => "rejected:" ++ (match a.code with | some n => toString n | none => "-")
+          | .accept => if (v, su, cm) = (w0, s0, 0) then "done" else "accepted-error"
+      | _ => if (what = "vers" ∨ what = "suite" ∨ what = "comp") then "nohello" else "bad-op"
+    | _, _ => "bad-op"
+  | _ => "bad-op"
+
 end Driver.HS
 
 namespace Driver
@@ -340,5 +371,6 @@ def handshakeDispatch (toks : List String) : Option String :=
   | "hsflight" :: rest => some (HS.hsflightOp rest)
   | "hsout" :: rest => some (HS.hsoutOp rest)
   | "chmod" :: rest => some (HS.chmodOp rest)
+  | "shmod" :: rest => some (HS.shmodOp rest)
   | _ => none
 end Driver
